@@ -16,6 +16,7 @@ CONSTANTS
   MaxNodes <- MaxNodesDef
   ExtraKinds = {"or", "and"}
   GIdPool <- GIdPoolDef
+  TouchKinds <- TouchKindsDef
   GMaxAtk = 2
   GOpsOn <- GOpsDef
 CONSTRAINT GBound
